@@ -1,7 +1,7 @@
 """C07 registry: clients (Client x retry policies, ConnectionPool, PooledClient)."""
 from __future__ import annotations
 
-from props.c07_core import Drv, Entity
+from props.c07_core import Drv, Entity, P, R
 
 from happysimulator.components.client import (Client, ConnectionPool, DecorrelatedJitter, ExponentialBackoff,
                                               FixedRetry, NoRetry, PooledClient)
@@ -34,7 +34,7 @@ class _ClientDrv(Drv):
     def build(self, cfg):
         self.backend = _SlowFirst("backend", cfg.L, self.hang_first)
         self.ok = self.fail = 0
-        self.c = Client("client", target=self.backend, timeout=2.0 * cfg.L + 0.75, retry_policy=self.retry(),
+        self.c = Client("client", target=self.backend, timeout=P(2.0) * cfg.L + P(0.75), retry_policy=self.retry(),
                         on_success=self._ok, on_failure=self._fail)
         return [self.backend, self.c]
 
@@ -57,7 +57,7 @@ class ClientFixedRetryDrv(_ClientDrv):
     hang_first = 2
 
     def retry(self):
-        return FixedRetry(max_attempts=3, delay=0.5)
+        return FixedRetry(max_attempts=3, delay=P(0.5))
 
 
 class ClientZeroDelayRetryDrv(_ClientDrv):
@@ -74,7 +74,7 @@ class ClientBackoffDrv(_ClientDrv):
     hang_first = 2
 
     def retry(self):
-        return ExponentialBackoff(max_attempts=3, initial_delay=0.25, max_delay=1.0, multiplier=2.0, jitter=0.0)
+        return ExponentialBackoff(max_attempts=3, initial_delay=P(0.25), max_delay=P(1.0), multiplier=2.0, jitter=0.0)
 
 
 class ClientJitterDrv(_ClientDrv):
@@ -82,7 +82,7 @@ class ClientJitterDrv(_ClientDrv):
     hang_first = 2
 
     def retry(self):
-        return DecorrelatedJitter(max_attempts=3, base_delay=0.25, max_delay=1.0)
+        return DecorrelatedJitter(max_attempts=3, base_delay=P(0.25), max_delay=P(1.0))
 
 
 class ConnectionPoolDrv(Drv):
@@ -96,7 +96,7 @@ class ConnectionPoolDrv(Drv):
         self.backend = _SlowFirst("backend", cfg.L, 0)
         self.timeouts = 0
         self.pool = ConnectionPool("pool", target=self.backend, min_connections=0, max_connections=1,
-                                   connection_timeout=1.0, idle_timeout=1.0, connection_latency=cfg.lat())
+                                   connection_timeout=P(1.0), idle_timeout=P(1.0), connection_latency=cfg.lat())
         return [self.backend, self.pool]
 
     def request(self, i, op):
@@ -118,7 +118,7 @@ class ConnectionPoolWarmDrv(Drv):
     def build(self, cfg):
         self.backend = _SlowFirst("backend", cfg.L, 0)
         self.pool = ConnectionPool("pool", target=self.backend, min_connections=2, max_connections=2,
-                                   connection_timeout=1.0, idle_timeout=1.0, connection_latency=cfg.lat())
+                                   connection_timeout=P(1.0), idle_timeout=P(1.0), connection_latency=cfg.lat())
         return [self.backend, self.pool]
 
     def init(self):
@@ -140,11 +140,11 @@ class PooledClientDrv(Drv):
 
     def build(self, cfg):
         self.backend = _SlowFirst("backend", cfg.L, 1)
-        self.pool = ConnectionPool("pool", target=self.backend, max_connections=1, connection_timeout=1.0,
-                                   idle_timeout=1.0, connection_latency=cfg.lat())
+        self.pool = ConnectionPool("pool", target=self.backend, max_connections=1, connection_timeout=P(1.0),
+                                   idle_timeout=P(1.0), connection_latency=cfg.lat())
         self.ok = self.fail = 0
-        self.pc = PooledClient("pclient", connection_pool=self.pool, timeout=2.0 * cfg.L + 0.75,
-                               retry_policy=FixedRetry(max_attempts=2, delay=0.5),
+        self.pc = PooledClient("pclient", connection_pool=self.pool, timeout=P(2.0) * cfg.L + P(0.75),
+                               retry_policy=FixedRetry(max_attempts=2, delay=P(0.5)),
                                on_success=lambda a, b: None, on_failure=lambda a, b: None)
         return [self.backend, self.pool, self.pc]
 
